@@ -2,6 +2,7 @@
 package analyzer
 
 import (
+	"github.com/go-critic/go-critic/checkers"
 	"github.com/go-critic/go-critic/linter"
 
 	"golang.org/x/tools/go/analysis"
@@ -34,7 +35,14 @@ var (
 	stringParams = make(map[string]*string)
 )
 
-var registeredCheckers = linter.GetCheckersInfo()
+// registeredCheckers is every checker the analyzer offers: the hand-written ones
+// and the ones generated from the embedded ruleguard rules, like in the go-critic command.
+var registeredCheckers = func() []*linter.CheckerInfo {
+	if err := checkers.InitEmbeddedRules(); err != nil {
+		panic(err)
+	}
+	return linter.GetCheckersInfo()
+}()
 
 func init() {
 	Analyzer.Flags.BoolVar(&flagDebugInit, "debug-init", false,
